@@ -164,6 +164,13 @@ SUMMARY = {
     "C19-H": ("staggered race: 'someone already won' check before the awaited connect, re-check after it dropped", "two attempts succeeding in the same loop iteration"),
     "C20-G": ("WriteFlowControl.drain() re-checks connection_lost after the wake-up", "sender suspended, another task closes gracefully, the peer reads again: the send fails although every byte was handed over"),
     "C20-H": ("drain(): lost-connection check nested under 'not paused'; connection_lost() no longer resets the paused flag", "connection lost while writing is paused, then any later send"),
+    # round 6 (ids I)
+    "C07-I": ("_buffered_readuntil: 'fast path' that only re-enters the search + limit check when the new bytes contain the separator's last byte", "buffered path; an unterminated frame arriving in ≥ 2 reads, the first still under the limit, the later ones without the separator's last byte"),
+    "C10-I": ("endpoint _DataReceiverImpl/_BufferedReceiverImpl.receive(): plain coro_yield() after a packet was popped from the consumer", "≥ 2 packets in one chunk, then a recv_packet() served from the buffer and cancelled at its first suspension (expired scope, early task.cancel())"),
+    "C15-I": ("StreamReaderBufferedProtocol._wait_for_data(): rescue keyed on `__external_buffer_view is not None`, which buffer_updated() has already reset", "BufferedStreamProtocol server, handler yielding a timeout, request bytes read in the same loop iteration as the expiry, handler carries on"),
+    "C16-I": ("AsyncDatagramServer.serve(): one queue condition shared by all _ClientData → notify() wakes another client's waiter", "≥ 2 clients whose generators wait on `yield` at the same time and a datagram for the one that is not the longest waiter"),
+    "C18-I": ("_run_sync_or_else(): contextlib.suppress(RuntimeError, CancelledError) swallows the BusyResourceError refusal of server_close()", "standalone server, server_close() from another thread while serve_forever() is still in its set-up phase"),
+    "C19-I": ("connect_socket() swallows CancelledError when getpeername() succeeds + create_stream_connection() bypasses the race for a single address (two sites, each harmless alone)", "host resolving to ONE address, caller cancelled after the handshake finished but before the task resumes"),
 }
 
 
